@@ -42,6 +42,7 @@ type HarnessSpec struct {
 	EagerGo     bool               `json:"eagerGo"`
 	UnboundedCh bool               `json:"unboundedChans"`
 	NoAutoMerge bool               `json:"noAutoMerge"`
+	Havoc       []string           `json:"havoc"` // functions replaced by "any result" stubs
 	AllocLimit  int                `json:"allocLimit"`
 	MaxSymIndex int                `json:"maxSymIndex"`
 	MaxConc     int                `json:"maxConcretize"`
@@ -133,7 +134,7 @@ func main() {
 			}
 			sort.Slice(kvs, func(i, j int) bool { return kvs[i].v > kvs[j].v })
 			for i, x := range kvs {
-				if i < 40 {
+				if i < 300 {
 					fmt.Fprintf(os.Stderr, "%8d %s\n", x.v, x.k)
 				}
 			}
@@ -312,11 +313,14 @@ func runCheck(prop, tier, only string, trace bool, workers int, noReplay bool, s
 		shared := newShared()
 		ecfg := &Config{
 			Unwind: orInt(tc.Unwind, 2000), MaxDepth: 400, MaxSteps: orInt64(tc.MaxSteps, 50_000_000),
-			MaxPaths: orInt(tc.MaxPaths, 2_000_000), MaxConcretize: orInt(h.MaxConc, 70000), MaxSymIndex: orInt(h.MaxSymIndex, 1024),
+			MaxPaths: orInt(tc.MaxPaths, 2_000_000), MaxConcretize: orInt(h.MaxConc, 600), MaxSymIndex: orInt(h.MaxSymIndex, 1024),
 			AllocLimit: orInt(h.AllocLimit, 1<<22), SolverTimeout: 30000, SolverKind: solverKind, Workers: workers,
 			MapOrderAny: h.MapOrderAny, EagerGo: h.EagerGo, UnboundedChans: h.UnboundedCh, Trace: trace, PanicsOK: h.PanicsOK,
 			SkipInit: map[string]bool{}, Known: known, AutoMerge: !h.NoAutoMerge, MaxMergePaths: 4096, MaxViolPerID: 1,
-			Params: tc.Params,
+			Params: tc.Params, Havoc: map[string]bool{},
+		}
+		for _, hv := range h.Havoc {
+			ecfg.Havoc[hv] = true
 		}
 		if tc.Timeout > 0 {
 			ecfg.Deadline = time.Now().Add(time.Duration(tc.Timeout) * time.Second)
